@@ -278,6 +278,64 @@ def cloneIfStruct (h : Heap) (v : Val) : R (Val × Heap) :=
     | none => .dangling
   | _ => .ok (v, h)
 
+
+/-! ## value conversions that recurse over containers (beyond `Serialize` / `BuildParamToNative`, which are C14's) -/
+
+def MAX_NOTIFY_LENGTH : Nat := 65536
+
+/-- elements of an array / struct in `convertNeoVmValueHexString`: `*count++` before every element -/
+def convElems (rec : Val → Nat × Nat → R (Nat × Nat)) : List Val → Nat × Nat → R (Nat × Nat)
+  | [], cl => .ok cl
+  | v :: vs, (c, l) => (rec v (c + 1, l)).bind fun cl' => convElems rec vs cl'
+
+/-- `VmValue.convertNeoVmValueHexString(count, length)` (Runtime.Notify, and the result of a pre-execution): only the two
+counters matter for termination. First argument: recursion budget, proved sufficient at `MAX_COUNT + 3` for EVERY heap. -/
+def convHex (h : Heap) : Nat → Val → Nat × Nat → R (Nat × Nat)
+  | 0, _, _ => .fuel
+  | f+1, v, (c, l) =>
+    if c > MAX_COUNT then .fault else
+    if l > MAX_NOTIFY_LENGTH then .fault else
+    match v with
+    | .bool _ => .ok (c, l + 1)
+    | .bytes d => .ok (c, l + d.length)
+    | .int z => .ok (c, l + (if z = 0 then 1 else (toNeo z).length))
+    | .ref r =>
+      match h[r]? with
+      | some (.arr vs) | some (.struct vs) => convElems (convHex h f) vs (c, l)
+      | some (.map _) => .fault
+      | none => .dangling
+
+def CONV_FUEL : Nat := MAX_COUNT + 3
+
+/-- `ConvertNeoVmValueHexString()` succeeds -/
+def convertHexOk (h : Heap) (v : Val) : R Bool :=
+  (convHex h CONV_FUEL v (0, 0)).bind fun (_, l) => .ok (decide (l ≤ MAX_NOTIFY_LENGTH))
+
+def MAX_PARAM_LENGTH : Nat := 1024
+
+def buildElems (rec : Val → Nat → R Nat) : List Val → Nat → R Nat
+  | [], size => .ok size
+  | v :: vs, size => (rec v size).bind fun size' => buildElems rec vs size'
+
+/-- `BuildResultFromNeo(item, bf)` (result of a NeoVM contract called from wasm): `size` = `len(bf.Bytes())`. Every array level
+writes 5 bytes before it recurses and every call starts with `len(bf.Bytes()) > MAX_PARAM_LENGTH`, so even `a = [a]` stops after
+206 levels. First argument: recursion budget, proved sufficient at `BUILD_FUEL`. -/
+def buildRes (h : Heap) : Nat → Val → Nat → R Nat
+  | 0, _, _ => .fuel
+  | f+1, v, size =>
+    if size > MAX_PARAM_LENGTH then .fault else
+    match v with
+    | .bytes d => .ok (size + 5 + d.length)
+    | .int z => if -170141183460469231731687303715884105728 ≤ z ∧ z ≤ 170141183460469231731687303715884105727 then .ok (size + 17) else .fault
+    | .bool _ => .ok (size + 2)
+    | .ref r =>
+      match h[r]? with
+      | some (.arr vs) => buildElems (buildRes h f) vs (size + 5)
+      | some _ => .fault
+      | none => .dangling
+
+def BUILD_FUEL : Nat := 208
+
 /-! ## the machine -/
 
 structure M where
